@@ -146,7 +146,7 @@ def run(world, tier, info, only=None):
         if sub == "*" and f not in ser_fields and md_fields.get(f, {}).get("adts", [""])[0].startswith("veryl_metadata::"):
             # passed whole but not serialised: we do not know which part is hashed
             K[(f, sub)] = "whole (not through toml::to_string)"
-    ck.floor("R1", "(field, subfield) pairs folded into the key", len(K), 6)
+    ck.floor("R1", "(field, subfield) pairs folded into the key", len(K), 4)
     # Serialize completeness for whole-serialised struct fields
     for f in sorted(ser_fields):
         fld = md_fields.get(f)
@@ -214,7 +214,7 @@ def run(world, tier, info, only=None):
                 todo.append((t["callee"], frm, line))
     ck.floor("R1", "Metadata methods called by the skipped work", len(seen_m), 1)
     ck.floor("R1", "consumer functions reading Metadata fields", len(readers), 2)
-    ck.floor("R1", "(field, subfield) pairs read by the skipped work", len(R), 6)
+    ck.floor("R1", "(field, subfield) pairs read by the skipped work", len(R), 4)
     for (f, sub), (p, line) in sorted(R.items()):
         covered = (f, sub) in K or ((f, "*") in K and K[(f, "*")] == "key part" and f in ser_fields) or \
                   ((f, "*") in K and not md_fields.get(f, {}).get("adts", [""])[0].startswith("veryl_metadata::"))
